@@ -9,9 +9,12 @@ package main
 //                 additive share whatever the ordering, and the shares sum to the ideal secret key
 //   too_few       fewer than t active points ⇒ error, output untouched
 //   agg_order     aggregating the received Shamir shares in another order gives the same share
-//   reconstruct_collide   same predicate as reconstruct, at points that are distinct non-zero
-//                 uint64s but collide modulo one of the primes (the hypothesis the Lean proof
-//                 forces); EXPECTED TO FAIL on the unmodified library (finding C15-collision-mod-prime)
+//   reconstruct_collide   at points that are distinct non-zero uint64s but collide modulo one of
+//                 the primes (the hypothesis the Lean reconstruction proof forces): the two colliding
+//                 parties' GenAdditiveShare must return an error and leave the output untouched, the
+//                 other parties' calls succeed, nobody panics — never a wrong key.  (Failed on the
+//                 library before fix 98b63bb, finding C15-collision-mod-prime: a wrong key was
+//                 silently produced.)
 
 import (
 	"fmt"
@@ -358,6 +361,43 @@ func (st *c15Setup) checkSubset(sub []int, orders [][]int) string {
 	return ""
 }
 
+// checkCollide: parties sub[0] and sub[1] have colliding points. Holds iff both are refused with
+// an error (output untouched), every other party of sub succeeds, and nobody panics.
+func (st *c15Setup) checkCollide(sub []int) string {
+	zero := st.s.ringQP.NewPoly()
+	sum := st.s.ringQP.NewPoly()
+	res := make([]string, len(sub))
+	outs := make([]ringqp.Poly, len(sub))
+	allOK := true
+	for k, i := range sub {
+		outs[k], res[k] = st.additive(i, sub)
+		if res[k] == "ok" {
+			st.s.ringQP.Add(sum, outs[k], sum)
+		} else {
+			allOK = false
+		}
+	}
+	if allOK {
+		if !sum.Equal(&st.skIdeal) {
+			return "colliding points accepted and a wrong key reconstructed"
+		}
+		return "colliding points accepted"
+	}
+	for k, i := range sub {
+		want := "ok"
+		if k < 2 {
+			want = "err"
+		}
+		if res[k] != want {
+			return fmt.Sprintf("GenAdditiveShare of party %d returned %s, expected %s", i, res[k], want)
+		}
+		if res[k] == "err" && !outs[k].Equal(&zero) {
+			return fmt.Sprintf("GenAdditiveShare of party %d returned an error but wrote its output", i)
+		}
+	}
+	return ""
+}
+
 func (st *c15Setup) emitAddShare(c *Ctx, i int, act []int, label string) {
 	a, res := st.additive(i, act)
 	out := res
@@ -543,7 +583,7 @@ func c15Boundary(c *Ctx, sets []c15Set) {
 			}
 			st := c15DoSetup(c, s, t, n, pts, false)
 			sub := c15Iota(t) // contains both colliding parties
-			detail := st.checkSubset(sub, [][]int{c15Iota(t)})
+			detail := st.checkCollide(sub)
 			c.Probe("reconstruct_collide", s.name+" t="+I(t)+" N="+I(n)+" pts="+c15Pts(pts)+" collide_mod="+U(q)+" subset="+IVec(sub), "C15-collision-mod-prime", detail)
 			st.emitAddShare(c, 0, sub, "collide")
 			st.emitAddShare(c, 1, sub, "collide")
